@@ -20,16 +20,30 @@ def dumped_payload(ex, item):
     return canon_of(ex, msg[len("dump:\n"):])
 
 
+LITERAL_ITEMS = [
+    (["Clone", "Default"], 'struct X { #[default("host=localhost; port=80")] a: String, #[default("{ } { }  ;  }")] b: &\'static str, c: u8 }'),
+    (["Default", "Debug"], '#[default(X(b"; } ; ", r#"a; b } c"#, \'}\'))] struct X(&\'static [u8; 6], &\'static str, char);'),
+    (["PartialEq", "Eq", "Hash"], 'struct X { #[eq(key = $.trim_matches("; } "))] a: String, #[eq(key = $.split("} ").count())] b: String }'),
+    (["PartialEq", "Clone"], 'enum X { A(#[partial_ord(key = ($, "x;  y"))] u8), B { #[partial_eq(by = |a: &String, b: &String| a.replace("; ", ";") == b.replace("} ", "}"))] s: String, t: u8 } }'),
+    (["Clone", "Debug"], '#[expect(dead_code, reason = "kept; for } later")] struct X { a: u8 }'),
+    (["Debug", "Default"], 'enum X { #[default] A { #[default("; ")] r#where: &\'static str, #[debug(ignore)] k: u8 }, B }'),
+]
+
+
 def run(ctx):
     ex = Expander()
     rng = random.Random(ctx.seed + 19)
     n = 600 if ctx.quick else 20000
     evals = nontriv = 0
     samples = []
-    for k in range(n):
-        it, derived = G.random_item(rng, helper_for_underived=False)
-        derived = list(dict.fromkeys(derived))
-        src = it.render()
+    def inputs():
+        # literals whose text looks like code punctuation: the dump is a token stream, the text of a literal must come through unchanged
+        for derived, src in LITERAL_ITEMS:
+            yield list(derived), src
+        for k in range(n):
+            it, derived = G.random_item(rng, helper_for_underived=False)
+            yield list(dict.fromkeys(derived)), it.render()
+    for k, (derived, src) in enumerate(inputs()):
         base = ex.attr(", ".join(derived), src)
         evals += 1
         if base["status"] != "ok" or base.get("items") is None:
